@@ -63,7 +63,7 @@ struct Shared
     std::atomic<long> paths, pruned, excluded, violations, inconclusive, truncated, crashed, uncaught;
     std::atomic<long> queries, q_sat, q_unsat, q_unknown, solver_us, forks, pending, started, live, maxlive;
     std::atomic<long> obligations, discharged, obl_unknown, branch_unknown, maxdepth, nsamples, stop, div_guard, sqrt_guard;
-    std::atomic<long> nlabels, nviolfiles, slowest_us;
+    std::atomic<long> nlabels, nviolfiles, slowest_us, tol_discharged;
     Label             labels[MAXLAB];
     char              samples[MAXSMP][900];
 };
@@ -546,7 +546,7 @@ z3::expr absx(const z3::expr& x)
     return z3::ite(x >= 0, x, -x);
 }
 
-void obligation(const z3::expr& holds, const z3::expr* margin_neg, const char* lab)
+void obligation(const z3::expr& holds, const z3::expr* margin_neg, const char* lab, const z3::expr* tol_neg = nullptr)
 {
     Label* l = label(lab);
     z3::expr h = holds.simplify();
@@ -583,8 +583,25 @@ void obligation(const z3::expr& holds, const z3::expr* margin_neg, const char* l
         S->obl_unknown++;
         return;
     }
-    // violated: look for a model with margin so that the replay on IEEE doubles is robust
+    // the exact statement has a counter-example over the reals. Concrete sub-computations of the real code are IEEE doubles
+    // (e.g. 1/3 rounded) while the harness reference may be exact, so differences at rounding level are tolerated:
+    // the obligation counts as violated only if it fails by more than 1e-9 relative to the magnitude of its operands.
     bool rounding = false;
+    if (tol_neg)
+    {
+        QR rt = query(tol_neg);
+        if (rt.r == z3::unsat)
+        {
+            l->checked++;
+            l->discharged++;
+            S->obligations++;
+            S->discharged++;
+            S->tol_discharged++;
+            return;
+        }
+        if (rt.r == z3::sat) r.m = std::move(rt.m);
+    }
+    // look for a model with a larger margin so that the replay on IEEE doubles is robust
     if (margin_neg)
     {
         QR r2 = query(margin_neg);
@@ -836,6 +853,7 @@ void write_summary()
     kv("branch_unknown", S->branch_unknown);
     kv("div_guards", S->div_guard);
     kv("sqrt_guards", S->sqrt_guard);
+    kv("discharged_within_1e-9", S->tol_discharged);
     kv("slowest_query_us", S->slowest_us);
     o += " \"solver_s\": " + std::to_string(S->solver_us.load() / 1e6) + ",\n";
     o += " \"wall_s\": " + std::to_string(now() - t_start) + ",\n";
@@ -1386,18 +1404,20 @@ void sym_check_cmp(double a, int op, double b, const char* lab)
         report_violation(lab, mdl.get(), "symbolic value compared with nan/inf", false);
     }
     z3::expr x = ex(a), y = ex(b);
-    z3::expr m = C->real_val(1, 1000) * (1 + absx(x) + absx(y));
-    z3::expr mneg = C->bool_val(false);
+    z3::expr scale = (1 + absx(x) + absx(y));
+    z3::expr m = C->real_val(1, 1000) * scale;
+    z3::expr t = C->real_val(1, 1000000000) * scale;
+    z3::expr mneg = C->bool_val(false), tneg = C->bool_val(false);
     switch (op)
     {
-    case SYM_EQ: mneg = absx(x - y) > m; break;
-    case SYM_NE: mneg = (x == y); break;
-    case SYM_LT: mneg = x >= y + m; break;
-    case SYM_LE: mneg = x > y + m; break;
-    case SYM_GT: mneg = x + m <= y; break;
-    default: mneg = x + m < y; break;
+    case SYM_EQ: mneg = absx(x - y) > m; tneg = absx(x - y) > t; break;
+    case SYM_NE: mneg = (x == y); tneg = (x == y); break;
+    case SYM_LT: mneg = x >= y + m; tneg = x >= y + t; break;
+    case SYM_LE: mneg = x > y + m; tneg = x > y + t; break;
+    case SYM_GT: mneg = x + m <= y; tneg = x + t <= y; break;
+    default: mneg = x + m < y; tneg = x + t < y; break;
     }
-    obligation(cmp_term(op, x, y), &mneg, lab);
+    obligation(cmp_term(op, x, y), &mneg, lab, &tneg);
 }
 void sym_close(double a, double b, double rel, const char* lab)
 {
